@@ -188,7 +188,7 @@ def main(tier: str, seed: int) -> int:
             dict(kinds=['linear', 'conv', 'linsub', 'act', 'empty'],
                  frozen=['none', 'all'], max_leaves=3, max_depth=2,
                  patterns=trees.WRAP_PATTERNS, max_pat=2, share=True,
-                 segs=('module', 'submodule', '0', 'sub', 'modules'),
+                 segs=('module', 'submodule', '0', 'sub', 'mod'),
                  simulate=2000),
         ]
     gscope = dict(kinds=['colpar', 'rowpar', 'linear', 'act', 'empty'],
